@@ -346,6 +346,12 @@ fn run(ctx: &mut Ctx) {
             crate::shim::reset_epoch();
         }
     }
+    // through the real binary, with a moving clock (what main() does to -d/-u before they reach the reader)
+    if let Err(e) = crate::engine::cli::available() {
+        ctx.machinery(e);
+    } else {
+        super::clitimed::run_all(ctx, "C12", 30_000);
+    }
     ctx.sample(|| json!({"params": "d=5 default F=DF4", "history": ["DF4(A)", "tick 4999 ms", "DF4(A)", "tick 5000 ms", "burst(B)x12"], "expected": "A present with age 0 after step 3; A absent after the burst"}));
     ctx.bound("depth", depth);
     ctx.bound("parameter sets", param_sets().len());
@@ -353,6 +359,9 @@ fn run(ctx: &mut Ctx) {
 }
 
 fn replay(ctx: &mut Ctx, case: &Value) {
+    if super::clitimed::replay(ctx, "C12", case) {
+        return;
+    }
     if let Some(n) = case.get("crowded").and_then(|x| x.as_u64()) {
         let d = case.get("d").and_then(|x| x.as_i64()).unwrap_or(60);
         let upd = case.get("upd").and_then(|x| x.as_bool()).unwrap_or(false);
